@@ -29,11 +29,13 @@ class Transport:
 
     def disconnect(self):
         """Disconnect from the transport."""
-        if not self.protocol or not self.protocol.transport:
+        protocol = self.protocol
+        transport = protocol.transport if protocol else None
+        if not transport:
             self.protocol = None  # Make sure protocol is None
             return
         _LOGGER.info("Disconnecting from gateway")
-        self.protocol.transport.close()
+        transport.close()
         self.protocol = None
 
     def send(self, message):
